@@ -43,6 +43,7 @@ import GM.Props.ConvertX
 import GM.Props.C16E2E
 import GM.Props.ConvertE2ENT
 import GM.Props.ConvertE2ENP
+import GM.Props.ConvertL
 
 namespace GM.Props.C01
 open GM
@@ -563,5 +564,34 @@ theorem convert_never_errs : type_of% @GM.Props.ConvertE2ENP.convert_never_errs 
 
 /-- (re-export of `GM.Props.ConvertE2ENP.block_phase_bracket_free_eq`) **on a source without `[` the block phase of the default pipeline IS the block phase without paragraph transformers** -/
 theorem block_phase_bracket_free_eq : type_of% @GM.Props.ConvertE2ENP.block_phase_bracket_free_eq := @GM.Props.ConvertE2ENP.block_phase_bracket_free_eq
+
+/-- (re-export of `GM.Props.ConvertX.convertx_never_loops`) `convertx_never_loops` — for EVERY member set, every source, renderer option set and Unicode class assignment: `convertX`
+    answers HTML or an error that is not fuel exhaustion (`blocks loop` / `inlines loop`). The inline phase: the totality proof
+    of the default inline loop carried over to the open trigger table (GM.Proof.ConvertXTotal: `scanX_total`, `lineLoopX_total`),
+    with the contracts of the strikethrough and the task-checkbox parser proved directly and the contract of the link parser
+    over both delimiter processors obtained from GM.Proof.InlinesLink.link_contract through a relabelling of emphasis levels
+    (GM.Proof.ConvertXRelv: the inline model is blind to levels; the generalised ProcessDelimiters / link parser are the default
+    ones up to a relabelling that sends the representation of a Strikethrough made by `c` tildes to level `c`). -/
+theorem convertx_never_loops : type_of% @GM.Props.ConvertX.convertx_never_loops := @GM.Props.ConvertX.convertx_never_loops
+
+/-- (re-export of `GM.Props.ConvertX.inline_loop_x_total`) the inline loop of a block under ANY member set FINISHES behind the run-time check (no fuel exhaustion, no Go panic, no
+    broken modelling invariant in the loop; what remains of parseBlock is the final ProcessDelimiters, which answers a child
+    list or `pre`) -/
+theorem inline_loop_x_total : type_of% @GM.Props.ConvertX.inline_loop_x_total := @GM.Props.ConvertX.inline_loop_x_total
+
+/-- (re-export of `GM.Props.ConvertL.convertl_never_loops`) `convertl_never_loops`. For ALL 16 member sets of {Strikethrough, TaskList, Table, Linkify} — `extension.GFM` among them —,
+    every source, option set, class assignment: `convertL` answers HTML or an error that is not fuel exhaustion. The Linkify
+    parser keeps the contract of the inline loop (`linkify_contract`: a match of the hand-matched expressions lies inside the
+    peeked line — `matchURL_bounds`, `matchWWW_bounds`, `findEmailIndex_le` —, the three trailing-character rules and the
+    e-mail path ANSWER — no `line[-1]`, no `line[-1:…]` — and leave at least one byte, so a returned node has consumed input);
+    the totality proof of the open-table loop covers a non-empty entry of ' ' (white space, a non-punctuation line head). -/
+theorem convertl_never_loops : type_of% @GM.Props.ConvertL.convertl_never_loops := @GM.Props.ConvertL.convertl_never_loops
+
+/-- (re-export of `GM.Props.ConvertL.convertgfm_never_loops`) see `GM.Props.ConvertL.convertgfm_never_loops` -/
+theorem convertgfm_never_loops : type_of% @GM.Props.ConvertL.convertgfm_never_loops := @GM.Props.ConvertL.convertgfm_never_loops
+
+/-- (re-export of `GM.Props.ConvertL.inline_loop_l_total`) the inline loop of a block under any of the 16 member sets FINISHES behind the run-time check: no Go panic of any parser —
+    in particular none of `(*linkifyParser).Parse`'s unguarded index expressions —, no fuel exhaustion -/
+theorem inline_loop_l_total : type_of% @GM.Props.ConvertL.inline_loop_l_total := @GM.Props.ConvertL.inline_loop_l_total
 
 end GM.Props.C01
